@@ -2,6 +2,7 @@
 import MagpyVerif.Model.Display
 import MagpyVerif.Model.DisplayTrig
 import MagpyVerif.Model.DisplayIdx
+import MagpyVerif.Model.DisplayGroup
 import Driver.KernFam
 import Driver.Parse
 
@@ -164,6 +165,35 @@ def runIdx (cmd : String) : P (Option String) := do
       let (i, j, k) := segIJKOf vert p1 p2
       pure (some s!"ok {N} {if segFull p1 p2 then 1 else 0} ; {nats i} ; {nats j} ; {nats k}")
   | "arrow" => do pure (some (ijk (arrowIJK (← nat))))
+  | "group" => do
+      -- `disp group <n> { <type> <facecolorNone 0/1> <m> { <key> ~<str(value)> }*m }*n`: output traces as `<type>:<member ids>`
+      let n ← nat
+      let mut ts : Array GTrace := #[]
+      for idx in [0:n] do
+        let ty ← tok; let fc ← nat; let m ← nat
+        let props ← many m (do let k ← tok; let v ← tok; pure (k, (v.drop 1).toString))
+        ts := ts.push { ty := ty, props := props, facecolorNone := fc != 0, id := idx }
+      let show1 (o : GOut) : String := match o with
+        | .single t => s!"{t.ty}:{t.id}"
+        | .mergedMesh l => "mesh3d:" ++ ",".intercalate (l.map fun t => toString t.id)
+        | .mergedScatter l => "scatter3d:" ++ ",".intercalate (l.map fun t => toString t.id)
+      pure (some ("ok " ++ " ".intercalate ((groupTraces ts.toList).map show1)))
+  | "wind" => do
+      -- winding report of a generator's triangulation: directed edges not used exactly once ; directed edges without reverse
+      let gen ← tok
+      let fs : Except Err (List MagpyVerif.Mesh.Face) ← match gen with
+        | "seg" => do let N ← nat; let full ← nat; pure (.ok (segTriangles N (full != 0)))
+        | "ell" => do pure (ellipsoidTriangles (← nat))
+        | "prism" => do pure (prismTriangles (← nat))
+        | "pyr" => do pure (pyramidTriangles (← nat))
+        | "arrow" => do pure (arrowTriangles (← nat))
+        | "cuboid" => pure (.ok cuboidTriangles)
+        | "tetra" => pure (.ok tetraTriangles)
+        | t => throw s!"unknown generator {t}"
+      let pairs (l : List MagpyVerif.Mesh.Edge) := " ".intercalate (l.map fun e => s!"{e.1}>{e.2}")
+      match fs with
+      | .error e => pure (some ("err " ++ errName e))
+      | .ok fs => pure (some s!"ok {fs.length} ; {pairs (windingDefects fs)} ; {pairs (unmatchedEdges fs)}")
   | "arrowv" => do
       let N ← nat; let d ← flt; let h ← flt; let p ← pivot
       pure (some (verts (arrowVerts N d h p)))
